@@ -113,6 +113,12 @@ func configs04(tier string) []xplore.Config {
 			}
 		}
 	}
+	// a server with an ACL: an all-targets subscriber that is denied t2 while t2
+	// is being updated (every response for it is dropped unsent), then nothing
+	// happens for longer than any time-out: the subscription stays up and keeps
+	// delivering what the subscriber may see
+	aclCfgs := []xplore.Config{{Name: "server WithACL denying t2 | stream *:[a] user=u | W(t2)=upd a/b;upd a/b, then idle past every time-out", Bound: bound,
+		Data: cfg08{stall: "never", script: []wop{{"upd", "a/b"}, {"upd", "a/b"}}, acl: true}}}
 	// single-operation programs once more with a scheduling point after every
 	// Unlock (the window between "found the queue empty under its lock" and
 	// "started waiting for the wake-up")
@@ -130,6 +136,12 @@ func configs04(tier string) []xplore.Config {
 		d := c.Data.(cfg04)
 		d.reverse = true
 		c.Data = d
+		c.Name += " [newest-first]"
+		out = append(out, c)
+	}
+	for _, c := range aclCfgs {
+		out = append(out, c)
+		c.Reverse = true
 		c.Name += " [newest-first]"
 		out = append(out, c)
 	}
@@ -261,6 +273,9 @@ func touched(ws []writer, t, p string) bool {
 }
 
 func run04(cfg xplore.Config, ch vrt.Chooser, trace bool) (xplore.Outcome, *vrt.Result) {
+	if d8, ok := cfg.Data.(cfg08); ok {
+		return run08acl(cfg, d8, ch, trace)
+	}
 	d := cfg.Data.(cfg04)
 	var out xplore.Outcome
 	res := vrt.Run(ch, vrt.Options{Trace: trace, Reverse: d.reverse, UnlockPoints: vrt.DefaultUnlockPoints || d.unlock}, func() {
